@@ -11,6 +11,8 @@ import TraitsVerif.Lemmas.SeqFault
 import TraitsVerif.Props.C04
 import TraitsVerif.Props.C12
 import TraitsVerif.Props.C17
+import TraitsVerif.Lemmas.Effects
+import TraitsVerif.Generated.Effects
 namespace TraitsVerif.Props.C19
 open TraitsVerif TraitsVerif.Py TraitsVerif.Model
 variable {α : Type}
@@ -148,11 +150,68 @@ theorem C19_factory_raises {α : Type} (cfg : Model.Adapt.Cfg) (f : Model.Adapt.
     ∃ k o a', f k o a' = .raise e :=
   Lemmas.Adapt.adaptLoop_raised cfg f adaptee target fuel st e h
 
+/-! ### Validation precedes mutation precedes notification (source order)
+
+In the functional models above a failing step carries no state, so "no effect"
+is true by construction.  The following two theorems close that gap from the
+source side: the order of effects on every control-flow path of every mutator
+is read from the source by a translator, and for *every* effect sequence in
+that order a failure at any point leaves the container unmutated and nobody
+notified. -/
+
+open Model.Effects in
+/-- **Source order** (decide over the table regenerated from the working tree):
+on every path of every mutator of TraitList, TraitListObject, TraitDict and
+TraitSet all validator calls and guards come first, then the builtin mutation,
+then at most one notification.  Interleaving validation with mutation, or
+notifying before mutating, breaks this obligation. -/
+theorem C19_effects_ordered :
+    ∀ r ∈ Generated.containerEffects, ∀ p ∈ r.2.2, orderedStr p = true := by
+  decide
+
+open Model.Effects in
+/-- **Order ⇒ atomicity**, for every effect sequence in that order and every
+failure point: if the effect that raises is a validator call or a guard, the
+container has not been mutated and nobody has been notified; if it is the
+builtin operation itself, nobody has been notified; and without a failure at
+most one notification is sent. -/
+theorem C19_ordered_atomic (fails : Nat → Bool) (es : List Eff) (hord : ordered 0 es = true) :
+    match exec fails 0 es {} with
+    | (s', none) => s'.notified ≤ 1
+    | (s', some j) =>
+      ((es[j]? = some .V ∨ es[j]? = some .G) → s'.mutated = false ∧ s'.notified = 0)
+      ∧ (es[j]? = some .M → s'.notified = 0) := by
+  have h := exec_ordered fails es 0 0 {} hord ⟨fun _ => ⟨rfl, rfl⟩, fun _ => rfl, by simp⟩
+  cases hex : exec fails 0 es {} with
+  | mk s' r =>
+    rw [hex] at h
+    cases r with
+    | none => exact h
+    | some j =>
+      obtain ⟨e, he, _, h1, h2⟩ := h
+      simp only [Nat.sub_zero] at he h1
+      constructor
+      · intro hj
+        have hpre := (ordered_prefix es 0 j hord hj).2
+        have hev : e = .V ∨ e = .G := by
+          rcases hj with hj | hj <;> (rw [he] at hj; simp only [Option.some.injEq] at hj)
+          · exact Or.inl hj
+          · exact Or.inr hj
+        exact h1 hev hpre
+      · intro hj
+        rw [he] at hj; simp only [Option.some.injEq] at hj
+        exact h2 (Or.inr (Or.inr hj))
+
 /-! ### Non-vacuity -/
 
 /-- The second validator call raises ValueError inside `extend`. -/
 example :
     (TraitList.step { C04.rejNeg with v := fun k x => if k = 1 then .error .valueError else .ok x }
       [1] (.extend [5, 6, 7])).toOption.isNone = true := by decide
+
+/-- The discipline is not vacuous: `VVMN` is ordered, `VMVN` (validate after a mutation) and
+`NM` (notify before mutating) are not. -/
+example : Model.Effects.orderedStr "VVMN" = true ∧ Model.Effects.orderedStr "VMVMN" = false
+    ∧ Model.Effects.orderedStr "NM" = false := by decide
 
 end TraitsVerif.Props.C19
